@@ -20,7 +20,9 @@ class CountingRows:
 
 class C07(Prop):
     id = "C07"
-    coq_header = "From PdV.Corr Require Import Read."
+    coq_header = "From PdV.Corr Require Import C07."
+    coq_check = "check7"
+    coq_case_type = "case7"
     rule = ("well-formed multi-block sheets (tables of every column kind and both orientations interleaved with "
             "metadata, directives, template rows and comments; text and native cells) read in the three output forms "
             "through parse_blocks (and read_csv for text sheets); jsondata compared with table_to_json_data of the "
@@ -39,11 +41,19 @@ class C07(Prop):
         return cases
 
     def corpus(self):
+        mk = lambda vals: {"rows": [["**t"], ["all"], ["a", "b"], ["datetime", "-"]] + [[v, "1"] for v in vals],
+                           "native": False, "unknown": None}
         return [{"rows": [["**t"], ["all"], ["a", "b", "c", "d"], ["datetime", "onoff", "-", "text"],
-                          ["2020-01-02 03:04:05.123456", "1", "nan", "x"], ["-", "0", "1.5", ""]], "native": False, "unknown": None}]
+                          ["2020-01-02 03:04:05.123456", "1", "nan", "x"], ["-", "0", "1.5", ""]], "native": False, "unknown": None},
+                # timestamps with a UTC offset, in UTC, with nanoseconds: whatever the table keeps of them, both forms agree
+                mk(["2021-06-01 12:00:00+02:00", "2021-06-02 08:30:00+02:00"]), mk(["2021-06-01T12:00:00Z", "-"]),
+                mk(["2021-03-04 05:06:07.123456789", "2021-03-04 05:06:07"]), mk(["2021-06-01 12:00:00-05:30"]),
+                {"rows": [["**t*"], ["all"], ["a", "datetime", "2021-06-01 12:00:00+02:00", "2021-06-02 08:30:00.5+02:00"],
+                          ["b", "text", "x", "y"]], "native": False, "unknown": None}]
 
     def _rcase(self, case, form):
-        return {"rows": case["rows"], "form": form, "raising": True, "fixer": "strict", "filter": None}
+        return {"rows": case["rows"], "form": form, "raising": True, "fixer": "strict", "filter": None,
+                "want_tjson": form == "pdtable"}
 
     def run_impl(self, case):
         import json
@@ -125,6 +135,9 @@ class C07(Prop):
                 a, b, c = dict(ep), dict(ej), dict(eg)
                 if not (a == b == c):
                     fails.append(f"nontable: {ep['t']} block differs between forms")
+        for ep in pdo["events"]:
+            if ep.get("k") == "table" and (ep.get("tjson") or {}).get("k") == "raised":
+                fails.append(f"table_to_json_data: raised {ep['tjson']['exc']} on a table the reader delivered")
         je = obs.get("json_equal")
         if isinstance(je, str):
             fails.append(f"json-equal: comparison raised {je}")
@@ -141,7 +154,22 @@ class C07(Prop):
         return None
 
     def multi_coq(self, case, obs):
-        return [R.case_to_coq(self._rcase(case, f), obs[f]) for f in ("pdtable", "jsondata", "cellgrid")]
+        out = []
+        for f in ("pdtable", "jsondata", "cellgrid"):
+            base = R.case_to_coq(self._rcase(case, f), obs[f])
+            if base is None:
+                out.append(None)
+                continue
+            tj = []
+            if f == "pdtable":
+                for e in obs[f]["events"]:
+                    if e.get("k") == "table":
+                        j = e.get("tjson") or {"k": "raised"}
+                        # a refused conversion is encoded as a table no model output equals
+                        tj.append(R.g_event(dict(j, t="TABLE", origin=None), None).split(" ", 3)[3] if j.get("k") == "json"
+                                  else "(OGrid [999%nat])")
+            out.append(f"(mk7 {base} {R.g_list(tj)})")
+        return out
 
     def nontrivial(self, case, obs):
         return any(e.get("k") == "table" and e["nrows"] > 0 for e in obs["pdtable"]["events"])
